@@ -107,6 +107,16 @@ CLAIMED['C09'] = dict(
     technique='function contracts enforced by CBMC DFCC / integer VCs on extracted real bodies, callee contracts for channel_invert / channel_multiply / luminance; partitioned composition lemma',
     design='4/C09')
 
+CLAIMED['C16'] = dict(
+    text='Contract proof of the six per-channel lambdas of threshold_binary / threshold_truncate (exact documented comparison for every channel '
+         'value, u8/u16/i16) and of detail::morph_impl with loop contracts on all four loops and a ghost neighbour: every read/write in bounds, every '
+         'destination pixel written, erode <= src <= dilate, and dilate >= (erode <=) EVERY in-image neighbour under a non-zero structuring-element '
+         'entry, for views up to 10^5 x 10^5 and kernels up to 1000 x 1000 (float32 and 8-bit channels). Otsu is a bounded native stand-in (UBSan).',
+    note=TRUST + 'Median filter, adaptive threshold, opening/closing algebra and the existence half of the extremum (result is one of the inputs) are not covered; '
+         'known finding C16-otsu-empty (empty image) is carved out; view access is the ghost VIEW_READ/VIEW_WRITE model.',
+    technique='function contracts and nested loop contracts with a ghost neighbour (CBMC DFCC) on extracted real bodies; bounded native stand-in for Otsu',
+    design='4/C16')
+
 NOT_APPLICABLE = {
     'C12': 'relates two whole template pipelines through a file/stream and external C libraries; no function contract within reach of a C verifier states what read_image returns after write_view (DESIGN 5)',
     'C13': 'equality of results of different compositions of reader classes/devices/policies over the same bytes is a relational property over I/O histories, not a pre/postcondition of an extractable function (DESIGN 5)',
